@@ -6,7 +6,13 @@
      Create/Write/Rename/Unlink : the write programme of the real update, as recorded by strace
      CrashRead : the result of a real GetCached() on the directory materialised at a crash point:
                  before the next step, or inside the next write after `plen` of its bytes
+     RefreshRead : (follows the CrashRead of the same crash point) the result of a real GetCached() after
+                 a restarted client ran a real refresh (GetLatest) on that crash state against a server that
+                 still serves vnew, answers 304 to the matching validator (If-None-Match, else
+                 If-Modified-Since) and 200 with the same payload otherwise
      Done      : the programme completed
+   Metadata files: the Reset/Write events classify the content of the validator files (EtagName, LMName)
+   by the version whose validator it is a prefix of; Trace[1].elen / .llen are the lengths of complete ones.
    The spec keeps its OWN image of the directory from the programme events and evaluates
    ReadOK on it at every CrashRead.                                                          *)
 EXTENDS AutoconfCache, Json
@@ -19,8 +25,11 @@ Ev == Trace[l]
 IsEvent(e) == l <= Len(Trace) /\ Trace[l].ev = e /\ l' = l + 1
 ToSet(s) == {s[i] : i \in 1..Len(s)}
 
+\* substituted for ValFull in the cfg: real lengths of complete validators
+TValFull(n, v) == IF n = EtagName THEN Trace[1].elen ELSE Trace[1].llen
+
 TInit == /\ l = 1 /\ files = [n \in {} |-> Absent] /\ full = <<>> /\ finals = {} /\ vnew = 0
-         /\ done = FALSE /\ base = {} /\ prog = <<>> /\ pcw = 0
+         /\ done = FALSE /\ base = {} /\ prog = <<>> /\ pcw = 0 /\ slot = 0 /\ refr = "save"
 
 TReset == /\ IsEvent("Reset")
           /\ full' = Ev.full /\ finals' = ToSet(Ev.finals) /\ vnew' = Ev.vnew /\ done' = FALSE
@@ -30,13 +39,13 @@ TReset == /\ IsEvent("Reset")
                               IN [ver |-> Ev.files[i][2], len |-> Ev.files[i][3]]
                          ELSE Absent]
           /\ base' = ValidOnDiskIn(files)'      \* evaluated on the new directory, payload lengths and final names
-          /\ UNCHANGED <<prog, pcw>>
-Frame == UNCHANGED <<full, finals, vnew, done, base, prog, pcw>>
+          /\ UNCHANGED <<prog, pcw, slot, refr>>
+Frame == UNCHANGED <<full, finals, vnew, done, base, prog, pcw, slot, refr>>
 TCreate == IsEvent("Create") /\ ~done /\ FsCreate(Ev.name, Ev.trunc) /\ Frame
 TWrite  == IsEvent("Write") /\ ~done /\ FsWrite(Ev.name, Ev.ver, Ev.off, Ev.n) /\ Frame
 TRename == IsEvent("Rename") /\ ~done /\ FsRename(Ev.a, Ev.b) /\ Frame
 TUnlink == IsEvent("Unlink") /\ ~done /\ FsUnlink(Ev.name) /\ Frame
-TDone   == IsEvent("Done") /\ done' = TRUE /\ UNCHANGED <<files, full, finals, vnew, base, prog, pcw>>
+TDone   == IsEvent("Done") /\ done' = TRUE /\ UNCHANGED <<files, full, finals, vnew, base, prog, pcw, slot, refr>>
 \* crash state = current image, with the file of the write in progress cut at plen bytes
 CrashImage == IF Ev.pname = "" THEN files
               ELSE [files EXCEPT ![Ev.pname] = [ver |-> IF Ev.plen = 0 THEN @.ver ELSE Ev.pver, len |-> Ev.plen]]
@@ -45,8 +54,13 @@ TCrashRead == /\ IsEvent("CrashRead")
               /\ ReadOKIn(CrashImage, Ev.result)
               /\ (IF done THEN Ev.result = vnew ELSE TRUE)
               /\ UNCHANGED vars
+\* crash + restart + refresh against the unchanged server + cached read
+TRefreshRead == /\ IsEvent("RefreshRead")
+                /\ (IF Ev.pname = "" THEN TRUE ELSE (Present(Ev.pname) /\ Ev.plen >= files[Ev.pname].len))
+                /\ RefreshReadOKIn(CrashImage, Ev.result)
+                /\ UNCHANGED vars
 
-TNext == TReset \/ TCreate \/ TWrite \/ TRename \/ TUnlink \/ TDone \/ TCrashRead
+TNext == TReset \/ TCreate \/ TWrite \/ TRename \/ TUnlink \/ TDone \/ TCrashRead \/ TRefreshRead
 TSpec == TInit /\ [][TNext]_tvars
 
 \* after Done the new version must be what a cached read returns
